@@ -207,6 +207,19 @@ func interactionPrograms() []string {
 			out = append(out, strings.NewReplacer("STOP", arg.stop, "SMALLER", arg.smaller, "INIT", arg.init).Replace(shape))
 		}
 	}
+	// (M) an integer parameter / loop variable as RIGHT operand (the left one is copied before, the right one may still be the live
+	//     register) of every operator with every kind of left operand; as index into containers with mixed int / float keys
+	for _, op := range []string{"<", "<=", ">", ">=", "==", "!=", "+", "-", "*", "/", "%", "<<", ">>", "&", "|", "^", "&&", "||", ":"} {
+		for _, left := range []string{"2.5", "0.5", "1.0", "7", `"s"`, "[1]", "{1: 1}", "nil", "true", "(0.0 / 0.0)", "9223372036854775807.0"} {
+			out = append(out, fmt.Sprintf(`f = func(n) {r = catch(%s %s n); if r.err {"E"} else {r.value}}; println(f(1), f(2), f(-3))`, left, op))
+			out = append(out, fmt.Sprintf(`for i = 3 {r = catch(%s %s i); println(if r.err {"E"} else {r.value})}`, left, op))
+		}
+	}
+	for _, m := range []string{`{1: "a", 1.5: "b", 2: "c", 2.5: "d", 3: "e", 0.5: "f"}`, `{1: "a", 1.5: "b"}`, `{0.0: "z", 1: "a", 2.0: "t", 3: "e", 4.5: "g"}`, `[10, 20, 30, 40]`, `{"1": "s", 1: "i", true: "b", nil: "n", 2: "j"}`} {
+		out = append(out, fmt.Sprintf(`m = %s; f = func(n) {[m[n], m[n + 1], m[n + 0.5]]}; println(f(0), f(1), f(2))`, m))
+		out = append(out, fmt.Sprintf(`m = %s; for i = 4 {println(m[i], m[i + 0.5], m[i * 1.0])}`, m))
+		out = append(out, fmt.Sprintf(`f = func(n) {m = %s; m[n] = "new"; del(m[n + 1]); m}; println(f(1), f(2))`, m))
+	}
 	// containers reached through references
 	for _, a := range []string{"x[0] = 5", `x.k = 5`, "del(x[0])", "x = x + 1", "x = x + x", "del(x)"} {
 		for _, init := range []string{"[1, 2, 3]", `{"k": 1, 0: 2}`, "1:12", `{1: 1, 2: 2, 3: 3, 4: 4, 5: 5}`} {
